@@ -166,9 +166,13 @@ func c11History(r *core.Run, ci int64) {
 	opsPer := 2 + rng.Intn(5)
 	log := &c11Log{}
 	var healthPasses atomic.Int64
+	var healthTicks atomic.Int64
 	chpool.VerifSetHook(func(name string) {
-		if name == "pool:health-pass" {
+		switch name {
+		case "pool:health-pass":
 			healthPasses.Add(1)
+		case "pool:health-tick":
+			healthTicks.Add(1)
 		}
 	})
 	defer chpool.VerifSetHook(nil)
@@ -426,7 +430,41 @@ func c11History(r *core.Run, ci int64) {
 		cancelAll()
 		return
 	}
-	// (f) idle reaping in completed health passes
+	// (f) idle reaping in completed health passes; in every second history one handle stays
+	// acquired meanwhile (reaping idle connections must not wait for a quiet pool)
+	heldConn := -1
+	var heldHandle *chpool.Client
+	if (class == "idle-reaping" || class == "idle-reaping-slow") && maxConns >= 2 && ci%2 == 0 {
+		hctx, hc := context.WithTimeout(ctx, 5*time.Second)
+		if h, err := pool.Acquire(hctx); err == nil {
+			sess := int(sessCtr.Add(1))
+			qid := fmt.Sprintf("s%d-h999", sess)
+			if h.Do(hctx, ch.Query{Body: "OK", QueryID: qid, Settings: []ch.Setting{{Key: "log_comment", Value: qid, Important: true}}}) == nil {
+				log.mu.Lock()
+				for i := len(log.ev) - 1; i >= 0; i-- {
+					if log.ev[i].Kind == "srv-query" && log.ev[i].Sess == sess {
+						heldConn = log.ev[i].Conn
+						break
+					}
+				}
+				log.mu.Unlock()
+			}
+			if heldConn >= 0 {
+				heldHandle = h
+				// and a second connection that goes idle now
+				if h2, err := pool.Acquire(hctx); err == nil {
+					sess2 := int(sessCtr.Add(1))
+					qid2 := fmt.Sprintf("s%d-h998", sess2)
+					_ = h2.Do(hctx, ch.Query{Body: "OK", QueryID: qid2, Settings: []ch.Setting{{Key: "log_comment", Value: qid2, Important: true}}})
+					h2.Release()
+				}
+				r.Count("idle_reaping_with_a_handle_held", 1)
+			} else {
+				h.Release()
+			}
+		}
+		hc()
+	}
 	conns := dialer.Conns()
 	if class == "idle-reaping" || class == "idle-reaping-slow" {
 		need := int64(3)
@@ -434,21 +472,23 @@ func c11History(r *core.Run, ci int64) {
 			// passes are at least one period apart: after 3x(idle/period) passes the idle time has passed for sure
 			need = 3 * int64(opts.MaxConnIdleTime/opts.HealthCheckPeriod)
 		}
-		start := healthPasses.Load()
+		start, startTicks := healthPasses.Load(), healthTicks.Load()
 		deadline := time.Now().Add(10 * time.Second)
-		for healthPasses.Load() < start+need && time.Now().Before(deadline) {
+		// logical clock: the health checker's own ticks. Every tick must run a pass, so after
+		// need+2 further ticks the passes have happened - or the checker skipped them
+		for healthPasses.Load() < start+need && healthTicks.Load() < startTicks+need+2 && time.Now().Before(deadline) {
 			time.Sleep(time.Millisecond)
 		}
-		if healthPasses.Load() < start+need {
-			r.Inconclusive(fmt.Sprintf("health check did not complete %d passes", need))
+		if healthPasses.Load() < start+need && healthTicks.Load() < startTicks+need+2 {
+			r.Inconclusive(fmt.Sprintf("health check did not tick %d times", need+2))
 		} else {
 			// destructors run asynchronously (puddle) and a transport may take a moment to close:
 			// a connection that is being reaped gets a grace period, one that is not stays open
 			open := 0
 			for wait := 0; wait < 3000; wait++ {
 				open = 0
-				for _, c := range conns {
-					if !c.Closed() {
+				for i, c := range conns {
+					if !c.Closed() && i != heldConn {
 						open++
 					}
 				}
@@ -458,10 +498,13 @@ func c11History(r *core.Run, ci int64) {
 				time.Sleep(time.Millisecond)
 			}
 			if open > 0 {
-				fail("idle-not-reaped", fmt.Sprintf("%d idle connection(s) past MaxConnIdleTime still open after %d completed health-check passes", open, need))
+				fail("idle-not-reaped", fmt.Sprintf("%d idle connection(s) past MaxConnIdleTime still open after %d health-check ticks / passes", open, need))
 			}
 			r.Count("idle_reaping_checked", 1)
 		}
+	}
+	if heldHandle != nil {
+		heldHandle.Release()
 	}
 	pool.Close()
 	// (g) everything closed after Close
